@@ -527,7 +527,7 @@ class World:
         def sub():
             from openfilter.filter_runtime import zeromq
             log('run-enter')
-            recv = zeromq.ZMQReceiver([(a, None) for a in spec['config']['sources']], nid)
+            recv = zeromq.ZMQReceiver([(a, None) for a in spec['config']['sources']], nid, low_latency=raw.get('low_latency'))
             n = 0
             try:
                 while not stop_evt.is_set():
